@@ -292,3 +292,45 @@ impl PollStream2 {
 //@ splice-stmts quic/s2n-quic-transport/src/stream/receive_stream.rs "ReceiveStream" poll_request "from=response.bytes.consumed += data_len;" "to=response.chunks.consumed += 1;"
     }
 }
+
+// ---- ReceiveStream::on_reset (RESET_STREAM frame received), WHOLE function body ---------------------------------------------------
+// C04: a RESET_STREAM that init_reset rejects (final-size contradiction / beyond the window: gate above) has NO effect: the
+// error is returned before STOP_SENDING synchronisation is cancelled and before the application is woken; an accepted one
+// cancels a pending STOP_SENDING (the peer has already reset) and wakes the reader exactly once.
+pub struct ResetStreamFrameX { pub application_error_code: u64, pub final_size: VarIntX, pub tag_v: u8 }
+impl ResetStreamFrameX { pub fn tag(&self) -> (r: u8) ensures r == self.tag_v { self.tag_v } }
+pub struct StreamError { pub code: u64 }
+pub struct AppErrX { pub code: u64 }
+impl From<u64> for AppErrX { fn from(v: u64) -> (r: AppErrX) { AppErrX { code: v } } }
+impl vstd::std_specs::convert::FromSpecImpl<u64> for AppErrX {
+    open spec fn obeys_from_spec() -> bool { false }
+    open spec fn from_spec(v: u64) -> AppErrX { AppErrX { code: v } }
+}
+impl StreamError { pub fn stream_reset(e: AppErrX) -> (r: StreamError) { StreamError { code: e.code } } }
+pub struct StreamEventsX { pub dummy: u8 }
+pub struct OnResetStream { pub stop_sending_sync: SyncX, pub reset_result: Ghost<Result<(), TransportError>>, pub resets: Ghost<int>, pub wakes: Ghost<int> }
+impl OnResetStream {
+    // ReceiveStream::init_reset: gate proved above (init_reset_gate); here an arbitrary verdict recorded as ghost input
+    #[verifier::external_body]
+    fn init_reset(&mut self, error: StreamError, actual_size: Option<VarIntX>, frame_tag: Option<u8>) -> (r: Result<(), TransportError>)
+        ensures r == old(self).reset_result@, final(self).resets@ == old(self).resets@ + 1, final(self).stop_sending_sync == old(self).stop_sending_sync,
+            final(self).wakes@ == old(self).wakes@, final(self).reset_result@ == old(self).reset_result@,
+    { unimplemented!() }
+    #[verifier::external_body]
+    fn wake(&mut self, events: &mut StreamEventsX)
+        ensures final(self).wakes@ == old(self).wakes@ + 1, final(self).stop_sending_sync == old(self).stop_sending_sync, final(self).resets@ == old(self).resets@,
+    { unimplemented!() }
+
+    fn on_reset_body(&mut self, frame: &ResetStreamFrameX, events: &mut StreamEventsX) -> (ret: Result<(), TransportError>)
+        requires !old(self).stop_sending_sync.stopped@,
+        ensures
+            (ret is Ok) == (old(self).reset_result@ is Ok),
+            // a rejected RESET_STREAM has no effect
+            ret is Err ==> ret->Err_0 == old(self).reset_result@->Err_0 && !final(self).stop_sending_sync.stopped@ && final(self).wakes@ == old(self).wakes@,
+            // an accepted one: STOP_SENDING is withdrawn, the reader is woken once
+            ret is Ok ==> final(self).stop_sending_sync.stopped@ && final(self).wakes@ == old(self).wakes@ + 1,
+            final(self).resets@ == old(self).resets@ + 1,
+    {
+//@ splice-stmts quic/s2n-quic-transport/src/stream/receive_stream.rs "ReceiveStream" on_reset body=1
+    }
+}
